@@ -1,6 +1,7 @@
 // C10 — q120 products and layout conversions are exact modulo the 120-bit modulus.
 // Oracle: 128-bit modular arithmetic for the four primes, textbook CRT with constants recomputed here.
 #include "q120h.h"
+#include "ops.h"
 
 static const uint64_t ELLS_Q[] = {0, 1, 2, 3, 4, 5, 7, 8, 15, 16, 17, 31, 33, 63, 64, 65, 100, 127, 255, 1000, 1023, 4095, 4097, 9999, 10000};
 
@@ -259,4 +260,9 @@ void run_C10(void) {
   static const uint64_t BN[] = {2, 4, 8, 16, 32, 64, 4096};
   for (size_t i = 0; i < ARRAY_LEN(BN); i++)
     for (unsigned rep = 0; rep < (th ? 10u : 2u); rep++) block_case(BN[i], rep);
+  // modules / tables created, used and destroyed in random order, several alive at once
+  for (unsigned rep = 0; rep < (G.thorough ? 240u : 24u); rep++)
+    ops_lifecycle_case("C10 objects", LKM_BBC | LKM_BAA | LKM_BBB, (rep % 4) == 3 ? DISP_GENERIC : DISP_NATIVE, 160, 0, rep, "lifecycle_uses");
+  for (unsigned rep = 0; rep < (G.thorough ? 12u : 6u); rep++)
+    ops_lifecycle_case("C10 objects", LKM_BBC | LKM_BAA | LKM_BBB, DISP_NATIVE, 0, (G.thorough && rep < 3) ? 66000 : 300 + 57 * (int)rep, rep, "lifecycle_uses");
 }
